@@ -30,6 +30,8 @@ import (
 	"fmt"
 	"math"
 	"net/http"
+	"runtime"
+	"runtime/debug"
 	"sort"
 	"strings"
 	"testing"
@@ -1298,6 +1300,7 @@ func (c *c18Run) codecSection() {
 			for _, codec := range codecs {
 				c.codecRoundTrips(id, md, inst.Msg, codec)
 				c.codecReuse(id, md, inst, heads, pool, codec)
+				c.codecHistories(id, inst, c18Companions(inst, insts, heads, pool), codec)
 			}
 			c.codecUnknown(id, md, inst.Msg)
 		}
@@ -1583,6 +1586,295 @@ func (c *c18Run) codecReuse(id string, md protoreflect.MessageDescriptor, inst c
 				step(dst, h, hData, history+", then "+inst.Label)
 			}
 			break
+		}
+	}
+}
+
+// c18Companions selects the "other message" of a two-call history for an
+// instance: the empty message, the first all-fields-set instance and the last
+// single-field instance of the type (labels that exist in both tiers), without
+// the instance itself. Smaller and larger encodings than the instance's own
+// both occur (a scratch buffer that is re-used without growing, and one that is).
+func c18Companions(inst c18Inst, insts, heads, pool []c18Inst) []c18Inst {
+	var out []c18Inst
+	add := func(in c18Inst) {
+		if in.Label == inst.Label {
+			return
+		}
+		for _, o := range out {
+			if o.Label == in.Label {
+				return
+			}
+		}
+		out = append(out, in)
+	}
+	if len(insts) > 0 {
+		add(insts[0]) // "empty"
+	}
+	if len(heads) > 0 {
+		add(heads[0])
+	}
+	if len(pool) > 0 {
+		add(pool[len(pool)-1])
+	}
+	for _, p := range pool { // types with very few instances: take what there is
+		if len(out) >= 2 {
+			break
+		}
+		add(p)
+	}
+	return out
+}
+
+// c18ScribbleBytes overwrites, in place, the backing arrays of every bytes field
+// of m (recursively) - what a caller does that recycles the buffers it built a
+// message from. It reports whether anything was overwritten.
+func c18ScribbleBytes(m protoreflect.Message) bool {
+	touched := false
+	scribble := func(b []byte) {
+		for i := range b {
+			b[i] ^= 0xff
+			touched = true
+		}
+	}
+	m.Range(func(fd protoreflect.FieldDescriptor, v protoreflect.Value) bool {
+		switch {
+		case fd.IsMap():
+			// no bytes keys; values of message kind are walked
+			if fd.MapValue().Kind() == protoreflect.MessageKind {
+				v.Map().Range(func(_ protoreflect.MapKey, mv protoreflect.Value) bool {
+					if c18ScribbleBytes(mv.Message()) {
+						touched = true
+					}
+					return true
+				})
+			}
+		case fd.IsList():
+			l := v.List()
+			for i := 0; i < l.Len(); i++ {
+				switch fd.Kind() {
+				case protoreflect.BytesKind:
+					scribble(l.Get(i).Bytes())
+				case protoreflect.MessageKind, protoreflect.GroupKind:
+					if c18ScribbleBytes(l.Get(i).Message()) {
+						touched = true
+					}
+				}
+			}
+		case fd.Kind() == protoreflect.BytesKind:
+			scribble(v.Bytes())
+		case fd.Kind() == protoreflect.MessageKind || fd.Kind() == protoreflect.GroupKind:
+			if c18ScribbleBytes(v.Message()) {
+				touched = true
+			}
+		}
+		return true
+	})
+	return touched
+}
+
+// codecHistories: "decode what they encode to an equal message" is a statement
+// about the bytes a caller HOLDS, for as long as it holds them - not only at the
+// instant the call returns. Two-call histories for every entry point of a codec,
+// on one goroutine with GOMAXPROCS 1 and the collector off (so that pooled or
+// package-level scratch state always reaches the next call):
+//
+//	(a) d1 = E1(m1); then any second call X(m2) with a DIFFERENT message m2 -
+//	    X in {Marshal, MarshalAppend(nil), MarshalAppend(prefix), MarshalStable,
+//	    Unmarshal} -; THEN d1 is judged: its bytes must be what they were when
+//	    E1 returned and must decode to m1. The second result must be right too.
+//	(b) Unmarshal(buf, dst); the caller overwrites buf (recycles it for the
+//	    encoding of m2, decodes that into a second destination); dst must still
+//	    equal m1 and the second destination m2.
+//	(c) d = E(m); the caller overwrites, in place, the byte slices it built m
+//	    from; d must still decode to what m was.
+//
+// MarshalAppend(b, m) returning a slice that shares memory with b is what the
+// API promises; nothing else may share memory with a buffer the caller owns.
+func (c *c18Run) codecHistories(id string, inst c18Inst, companions []c18Inst, codec c18Codec) {
+	name := codec.Name()
+	want := inst.Msg
+	prevProcs := runtime.GOMAXPROCS(1)
+	prevGC := debug.SetGCPercent(-1)
+	defer func() {
+		debug.SetGCPercent(prevGC)
+		runtime.GOMAXPROCS(prevProcs)
+	}()
+	prefix := []byte("C18\x00\xfe")
+	type entry struct {
+		name string
+		skip int
+		call func(m proto.Message) ([]byte, error)
+	}
+	entries := []entry{
+		{"marshal", 0, func(m proto.Message) ([]byte, error) { return codec.Marshal(m) }},
+		{"marshalappend", 0, func(m proto.Message) ([]byte, error) { return codec.MarshalAppend(nil, m) }},
+		{"marshalappend-prefix", len(prefix), func(m proto.Message) ([]byte, error) {
+			buf := make([]byte, len(prefix), 4096)
+			copy(buf, prefix)
+			return codec.MarshalAppend(buf, m)
+		}},
+		{"marshalstable", 0, func(m proto.Message) ([]byte, error) { return codec.MarshalStable(m) }},
+	}
+	// decodes judges bytes with the codec's own decoder into a fresh message
+	decodes := func(data []byte, skip int, m proto.Message) (ok bool, obs string) {
+		if len(data) < skip || !bytes.Equal(data[:skip], prefix[:skip]) {
+			return false, "the prefix is gone"
+		}
+		got := m.ProtoReflect().New().Interface()
+		var uerr error
+		if pn := c18Guard(func() { uerr = codec.Unmarshal(data[skip:], got) }); pn != "" {
+			return false, "Unmarshal panics: " + pn
+		}
+		if uerr != nil {
+			return false, "Unmarshal fails: " + uerr.Error()
+		}
+		if !proto.Equal(got, m) {
+			return false, "they decode to " + c18JSON(got)
+		}
+		return true, ""
+	}
+	refEncode := func(m proto.Message) []byte {
+		var data []byte
+		var err error
+		if pn := c18Guard(func() { data, err = codec.Marshal(proto.Clone(m)) }); pn != "" || err != nil {
+			return nil
+		}
+		if data == nil {
+			data = []byte{}
+		}
+		return data
+	}
+	type second struct {
+		name string
+		run  func(m2 proto.Message) (string, bool) // observation, result fine
+	}
+	var seconds []second
+	for _, e := range entries {
+		e := e
+		seconds = append(seconds, second{e.name, func(m2 proto.Message) (string, bool) {
+			var d2 []byte
+			var err error
+			if pn := c18Guard(func() { d2, err = e.call(proto.Clone(m2)) }); pn != "" || err != nil {
+				return "", true // judged by codecRoundTrips
+			}
+			ok, obs := decodes(d2, e.skip, m2)
+			return obs, ok
+		}})
+	}
+	seconds = append(seconds, second{"unmarshal", func(m2 proto.Message) (string, bool) {
+		enc := refEncode(m2)
+		if enc == nil {
+			return "", true
+		}
+		ok, obs := decodes(enc, 0, m2)
+		return obs, ok
+	}})
+
+	// (a) an earlier result survives a later call
+	for _, e1 := range entries {
+		for _, comp := range companions {
+			for _, s2 := range seconds {
+				c.r.Eval(1)
+				var d1 []byte
+				var err error
+				if pn := c18Guard(func() { d1, err = e1.call(proto.Clone(want)) }); pn != "" || err != nil {
+					c.r.Count("codec:history-skipped-unencodable", 1)
+					continue
+				}
+				ok0, _ := decodes(d1, e1.skip, want)
+				if !ok0 {
+					continue // wrong at once: judged by codecRoundTrips
+				}
+				snap := append([]byte(nil), d1...)
+				obs2, ok2 := s2.run(comp.Msg)
+				ok1, obs1 := decodes(d1, e1.skip, want)
+				what := fmt.Sprintf("%s codec: d1 = %s(m1 = %s %s) [%s]; then %s(m2 = %s %s)", name, e1.name, inst.Label, c18JSON(want), c18Short(snap), s2.name, comp.Label, c18JSON(comp.Msg))
+				switch {
+				case !ok1:
+					c.violate("codec:"+name+"-"+e1.name+"-result-overwritten-by-later-call", id, what+fmt.Sprintf("; afterwards d1 holds %s: %s — the bytes handed to the first caller were changed by the second call", c18Short(d1), obs1))
+					c.r.Outcome("history:" + name + ":earlier-result-lost")
+				case !bytes.Equal(d1, snap):
+					c.violate("codec:"+name+"-"+e1.name+"-result-overwritten-by-later-call", id, what+fmt.Sprintf("; afterwards d1 holds %s (different bytes, still decoding to m1)", c18Short(d1)))
+					c.r.Outcome("history:" + name + ":earlier-result-changed")
+				case !ok2:
+					c.violate("codec:"+name+"-"+s2.name+"-wrong-after-earlier-call", id, what+": the result of the second call is wrong, "+obs2+" — the same call alone is fine")
+					c.r.Outcome("history:" + name + ":later-result-wrong")
+				default:
+					c.r.Outcome("history:" + name + ":both-results-intact")
+				}
+				c.say("%s -> d1 intact=%v, second fine=%v", what, ok1, ok2)
+			}
+		}
+	}
+
+	// (b) Unmarshal keeps nothing of the caller's buffer
+	wantData := refEncode(want)
+	if wantData != nil {
+		for _, comp := range companions {
+			compData := refEncode(comp.Msg)
+			if compData == nil {
+				continue
+			}
+			c.r.Eval(1)
+			n := len(wantData)
+			if len(compData) > n {
+				n = len(compData)
+			}
+			buf := make([]byte, n)
+			copy(buf, wantData)
+			dst := want.ProtoReflect().New().Interface()
+			var uerr error
+			if pn := c18Guard(func() { uerr = codec.Unmarshal(buf[:len(wantData)], dst) }); pn != "" || uerr != nil || !proto.Equal(dst, want) {
+				continue // judged by codecRoundTrips
+			}
+			for i := range buf {
+				buf[i] = 0xff
+			}
+			what := fmt.Sprintf("%s codec: Unmarshal(buf = Marshal(m1 = %s %s), dst); the caller then fills buf with 0xff", name, inst.Label, c18JSON(want))
+			if !proto.Equal(dst, want) {
+				c.violate("codec:"+name+"-unmarshal-result-aliases-input", id, what+": dst changed to "+c18JSON(dst))
+				c.r.Outcome("history:" + name + ":decoded-message-aliases-input")
+				continue
+			}
+			copy(buf, compData)
+			dst2 := want.ProtoReflect().New().Interface()
+			if pn := c18Guard(func() { uerr = codec.Unmarshal(buf[:len(compData)], dst2) }); pn != "" || uerr != nil {
+				continue
+			}
+			switch {
+			case !proto.Equal(dst, want):
+				c.violate("codec:"+name+"-unmarshal-result-aliases-input", id, what+fmt.Sprintf(" and re-uses it for Marshal(m2 = %s), decoded into a second destination: the FIRST destination changed to %s", comp.Label, c18JSON(dst)))
+				c.r.Outcome("history:" + name + ":decoded-message-aliases-input")
+			case !proto.Equal(dst2, comp.Msg):
+				c.violate("codec:"+name+"-unmarshal-wrong-after-earlier-call", id, what+fmt.Sprintf(" and re-uses it for Marshal(m2 = %s %s): decoded %s", comp.Label, c18JSON(comp.Msg), c18JSON(dst2)))
+				c.r.Outcome("history:" + name + ":later-decode-wrong")
+			default:
+				c.r.Outcome("history:" + name + ":decoded-messages-independent-of-buffer")
+			}
+		}
+	}
+
+	// (c) an encoding keeps nothing of the message it was made from
+	for _, e := range entries {
+		in := proto.Clone(want)
+		var d []byte
+		var err error
+		if pn := c18Guard(func() { d, err = e.call(in) }); pn != "" || err != nil {
+			continue
+		}
+		if ok, _ := decodes(d, e.skip, want); !ok {
+			continue
+		}
+		if !c18ScribbleBytes(in.ProtoReflect()) {
+			break // no bytes field populated in this instance
+		}
+		c.r.Eval(1)
+		if ok, obs := decodes(d, e.skip, want); !ok {
+			c.violate("codec:"+name+"-"+e.name+"-result-aliases-message", id, fmt.Sprintf("%s codec: d = %s(m = %s %s); the caller then overwrites the byte slices of m in place: %s", name, e.name, inst.Label, c18JSON(want), obs))
+			c.r.Outcome("history:" + name + ":encoding-aliases-message")
+		} else {
+			c.r.Outcome("history:" + name + ":encoding-independent-of-message")
 		}
 	}
 }
